@@ -9,13 +9,11 @@ Definition triple_eqb (a b : N * N * N) : bool :=
 Definition quad_eqb (a b : N * N * N * N) : bool :=
   let '(a1, a2, a3, a4) := a in let '(b1, b2, b3, b4) := b in (a1 =? b1) && (a2 =? b2) && (a3 =? b3) && (a4 =? b4).
 
-(** lists whose order depends on Go map iteration in the unchanged code are compared as
-    multisets: both sides are brought into the textual id order first *)
+(** TimeoutCounter / MultiTxCounter lists (ordered by the code since the map-order fix) *)
 Definition all_tx (l : list tok) : bool := forallb (fun t => match t with TTx _ => true | _ => false end) l.
 Definition ids_of (l : list tok) : list txid :=
   flat_map (fun t => match t with TTx i => [i] | _ => [] end) l.
-Definition toks_canon (w : world) (l : list tok) : list tok :=
-  if all_tx l then map TTx (id_sort w (ids_of l)) else l.
+Definition toks_canon (w : world) (l : list tok) : list tok := l.   (* the code orders these lists itself: exact comparison *)
 Definition cmapobs_eqb (w : world) (a b : list (N * list tok)) : bool :=
   list_eqb (fun p q : N * list tok => (fst p =? fst q) && list_eqb tok_eqb (toks_canon w (snd p)) (toks_canon w (snd q))) a b.
 
